@@ -151,7 +151,7 @@ def r3_no_fabrication(ctx, f, rep):
                        'Member::new outside tests takes its incarnation from such a read or from 0; what is serialised for '
                        'gossip is the applied update, or Member::down(own/previous identity)')
     arith = []
-    for b in f.bodies:
+    for b in f.analysed_bodies():
         if '_serde' in b.nname or 'core::fmt' in b.nname:
             continue
         interesting = body_mentions(b)
